@@ -80,6 +80,8 @@ def make_builtins(eng):
         if n in ("tuple",): return z3.BoolVal(isinstance(v, VTuple))
         if isinstance(v, HObj):
             return z3.BoolVal(eng.is_subclass(v.cls, n))
+        if isinstance(v, VOpt) and isinstance(v.inner, (VAbs, VRef)):
+            return z3.And(z3.Not(v.isnone), _isinst(eng, eng.deref(v.inner, st), n, st))
         if isinstance(v, VAbs):
             r = v.isinstance(n, st, eng) if hasattr(v, "isinstance") else None
             if r is not None:
